@@ -27,6 +27,9 @@ Base(f, at, n, q, st) == [qlen |-> q, conns |-> <<1, 2>>, writers |-> WritersScr
 Scenarios ==
        {Base("cutAB", k, 0, 16, 0) : k \in {x \in 0..(BytesAB - 1) : x % CutStep = 0}}
   \cup {Base("cutBA", k, 0, 16, 0) : k \in {x \in 0..(BytesBA - 1) : x % CutStep = 0}}
+  \* the trunk fails in the write direction only, strictly inside a frame (at a frame boundary nothing is damaged)
+  \cup {Base("halfAB", k, 0, 16, 0) : k \in {x \in 1..(BytesAB - 1) : x % CutStep = 1} \ {28, 76}}
+  \cup {Base("halfBA", k, 0, 16, 0) : k \in {x \in 1..(BytesBA - 1) : x % CutStep = 1} \ {38}}
   \cup {Base(f, j, n, 16, 0) : f \in {"closeA", "closeB"}, j \in 0..Frames, n \in {1, 2, 8}}
   \cup {[Base("overflow", 0, 0, q, 1) EXCEPT !.writers =
            <<[end |-> "A", conn |-> 1, msgs |-> [i \in 1..n |-> 10 + i]],
